@@ -4,6 +4,8 @@ import (
 	"fmt"
 	"go/token"
 	"go/types"
+	"sort"
+	"strings"
 
 	"golang.org/x/tools/go/ssa"
 
@@ -453,6 +455,11 @@ func runC03(p *core.Program, r *core.Report) {
 				c.ob("PT3", fname, "true only after a removal", p.InstrPos(rt), boolGuard(fn, b, isFound, true) && path.IsNil(rv[1]), "Delete reports success (true, nil) on a path where no element was found")
 			} else {
 				c.ob("PT3", fname, "absence reported with an error", p.InstrPos(rt), !path.IsNil(rv[1]), "Delete must return an error when it removes nothing")
+				// nothing is removed only when the value was looked up and not found, or
+				// when the heap is known to be empty
+				notFound := boolGuard(fn, b, isFound, false)
+				empty := hasFact(edgeFacts(x, fn, b), "len(h.data)", "==", "0")
+				c.ob("PT3", fname, "refuses only an absent value or an empty heap", p.InstrPos(rt), notFound || empty, "Delete gives up on a path where neither the lookup failed nor the heap is known to be empty (len(h.data) == 0): present values are not removed")
 				w := 0
 				for _, st := range sts {
 					if st.Block() == b || st.Block().Dominates(b) {
@@ -478,7 +485,32 @@ func runC03(p *core.Program, r *core.Report) {
 				}
 			}
 		}
-		c.ob("RS1", fname, "re-sift at the slot that was filled", c.fpos(fn), down && up, "Delete moves the former last element into the victim's slot but does not re-sift that slot (moveDown(n, idx) and moveUp(idx)): the heap order is broken when an inner element is deleted")
+		// what it does instead is part of the construct's identity: a recorded finding
+		// about one wrong re-sift does not cover a different wrong (or missing) one
+		does := []string{}
+		{
+			xx := newPathCtx(p)
+			if moveDown != nil {
+				for _, call := range callsTo(fn, moveDown) {
+					a := call.Common().Args
+					does = append(does, "moveDown("+xx.path(a[1])+", "+xx.path(a[2])+")")
+				}
+			}
+			if moveUp != nil {
+				for _, call := range callsTo(fn, moveUp) {
+					does = append(does, "moveUp("+xx.path(call.Common().Args[1])+")")
+				}
+			}
+			sort.Strings(does)
+			if len(does) == 0 {
+				does = []string{"nothing"}
+			}
+		}
+		rsObj := "re-sift at the slot that was filled"
+		if !(down && up) {
+			rsObj += " (does: " + strings.Join(does, "; ") + ")"
+		}
+		c.ob("RS1", fname, rsObj, c.fpos(fn), down && up, "Delete moves the former last element into the victim's slot but does not re-sift that slot (moveDown(n, idx) and moveUp(idx)): the heap order is broken when an inner element is deleted")
 	}
 
 	// ---------------- BD1: re-sift bound vs. live length
@@ -671,7 +703,18 @@ func runC03(p *core.Program, r *core.Report) {
 			for _, call := range calls {
 				a := call.Common().Args
 				ph, ok := a[2].(*ssa.Phi)
-				okL := ok && phiStep(ph) == -1 && x.path(phiInit(ph)) == "((len(h.data)-2)/2)" && x.path(a[1]) == "len(h.data)"
+				// the start is at (or above) the last internal node, size/2 - 1
+				okStart := ok
+				if ok {
+					isLen := func(v ssa.Value) bool { return x.path(v) == "len(h.data)" }
+					for n := int64(0); n <= 9 && okStart; n++ {
+						v, okE, _ := evalLenExpr(phiInit(ph), isLen, n)
+						if !okE || (n/2-1 >= 0 && v < n/2-1) {
+							okStart = false
+						}
+					}
+				}
+				okL := ok && phiStep(ph) == -1 && okStart && x.path(a[1]) == "len(h.data)"
 				if okL {
 					okL = guardedByHeader(ph, func(cd path.Cond) bool {
 						k, isK := path.IntConst(cd.Y)
@@ -770,6 +813,60 @@ func runC03(p *core.Program, r *core.Report) {
 			}
 			_ = iv
 			c.ob("AG9", p.FuncName(fFromSlice), "inlined children agree with leftChild/rightChild", c.fpos(fFromSlice), okInl == 2, "FromSlice computes its children with different index maps than the rest of the heap")
+			// the bottom-up pass starts at (or above) the last internal node, len/2 - 1, and
+			// runs down to slot 0: otherwise an internal node is never sifted
+			{
+				okStart := false
+				data := ssa.Value(fFromSlice.Params[0])
+				isLen := func(v ssa.Value) bool {
+					call, ok := v.(*ssa.Call)
+					if !ok {
+						return false
+					}
+					b, ok := call.Call.Value.(*ssa.Builtin)
+					return ok && b.Name() == "len" && path.Unspill(call.Call.Args[0]) == data
+				}
+				for _, in := range path.Instrs(fFromSlice) {
+					ph, ok := in.(*ssa.Phi)
+					if !ok || len(path.NaturalLoop(ph.Block())) == 0 {
+						continue
+					}
+					// the outer counter: its initial value is an arithmetic expression of len(data)
+					var init ssa.Value
+					for i, e := range ph.Edges {
+						if !path.NaturalLoop(ph.Block())[ph.Block().Preds[i]] {
+							init = e
+						}
+					}
+					if init == nil {
+						continue
+					}
+					uses := false
+					good := true
+					for n := int64(0); n <= 9; n++ {
+						v, ok, usedLen := evalLenExpr(init, isLen, n)
+						if !ok {
+							good = false
+							break
+						}
+						uses = uses || usedLen
+						if n/2-1 >= 0 && v < n/2-1 {
+							good = false
+						}
+					}
+					if !uses {
+						continue
+					}
+					down := guardedByHeader(ph, func(cd path.Cond) bool {
+						k, isK := path.IntConst(cd.Y)
+						return cd.X == ssa.Value(ph) && isK && ((cd.Op == token.GEQ && k == 0) || (cd.Op == token.GTR && k == -1))
+					})
+					if good && down {
+						okStart = true
+					}
+				}
+				c.ob("AG9", p.FuncName(fFromSlice), "bottom-up from the last internal node", c.fpos(fFromSlice), okStart, "FromSlice must sift every internal node: the outer counter has to start at len(data)/2 - 1 or above and run while i >= 0")
+			}
 		}
 	}
 	// moveDown structure
@@ -976,7 +1073,8 @@ func runC03(p *core.Program, r *core.Report) {
 					if ma[0] == hp && ma[1] == ssa.Value(ph) && isK2 && k2 == 0 && call.Block().Dominates(md.Block()) {
 						okLoop = guardedByHeader(ph, func(cd path.Cond) bool {
 							kk, isKK := path.IntConst(cd.Y)
-							return cd.X == ssa.Value(ph) && isKK && ((cd.Op == token.GTR && kk == 0) || (cd.Op == token.GEQ && kk == 1))
+							// down to 1 (a last round at i = 0 swaps the root with itself and sifts nothing)
+							return cd.X == ssa.Value(ph) && isKK && ((cd.Op == token.GTR && (kk == 0 || kk == -1)) || (cd.Op == token.GEQ && (kk == 1 || kk == 0)))
 						})
 					}
 				}
@@ -1067,4 +1165,39 @@ func isAppOf(v ssa.Value, f *ssa.Function, x ssa.Value) bool {
 		return true
 	}
 	return rec(v, x)
+}
+
+// evalLenExpr evaluates an integer expression built from +, -, *, / (Go's truncating
+// division), integer constants and len(x) (isLen) with len(x) = n. usedLen reports
+// whether the expression mentions the length at all.
+func evalLenExpr(v ssa.Value, isLen func(ssa.Value) bool, n int64) (val int64, ok bool, usedLen bool) {
+	if k, isK := path.IntConst(v); isK {
+		return k, true, false
+	}
+	if isLen(v) {
+		return n, true, true
+	}
+	bo, isB := v.(*ssa.BinOp)
+	if !isB {
+		return 0, false, false
+	}
+	a, ok1, u1 := evalLenExpr(bo.X, isLen, n)
+	b, ok2, u2 := evalLenExpr(bo.Y, isLen, n)
+	if !ok1 || !ok2 {
+		return 0, false, false
+	}
+	switch bo.Op {
+	case token.ADD:
+		return a + b, true, u1 || u2
+	case token.SUB:
+		return a - b, true, u1 || u2
+	case token.MUL:
+		return a * b, true, u1 || u2
+	case token.QUO:
+		if b == 0 {
+			return 0, false, false
+		}
+		return a / b, true, u1 || u2
+	}
+	return 0, false, false
 }
